@@ -216,7 +216,7 @@ impl Prop for C07Searches {
 
 // ------------------------------------------------------------------------------ C08
 
-pub const C08_RULE: &str = "(position, depth N, game continuation) with half-move clock 0 so that clock + N + plies < 100: few-piece endgames (2..7 men; 70%) and set-up/reachable middlegames (30%), N in 1..3 (3 for <= 7 men in quick), searched through alpha_beta_search or Game::select_alpha_beta_best_move on ONE SearchContext/Game reused along a generated game continuation of 0..6 further searches (engine move every ply, or engine move + generated reply). Oracle: cache-free, pruning-free minimax over the reference legal moves; leaves and no-move nodes valued as the property states: mate score for the side to move when in check without moves (read from evaluate::score on a canonical mated board for that colour and remaining depth), 0 for stalemate, otherwise evaluate::board_material_score of the position rebuilt from scratch. last_score()/alpha_beta_score() must equal minimax(root, N) and minimax(child after the returned move, N-1) must equal it too. Non-trivial = search with a reused context (prior >= 1), or a tree containing a mate/stalemate inside the horizon; distinct = (root fingerprint, N, prior index).";
+pub const C08_RULE: &str = "(position, depth N, game continuation) with half-move clock 0 so that clock + N + plies < 100: few-piece endgames (2..7 men; 70%) and set-up/reachable middlegames (30%), N in 1..4 (4 for <= 4 men, 3 for <= 7 men, else 2), searched through alpha_beta_search or Game::select_alpha_beta_best_move on ONE SearchContext/Game reused along a generated game continuation of 0..6 further searches (engine move every ply, or engine move + generated reply). Oracle: cache-free, pruning-free minimax over the reference legal moves; leaves and no-move nodes valued as the property states: mate score for the side to move when in check without moves (read from evaluate::score on a canonical mated board for that colour and remaining depth), 0 for stalemate, otherwise evaluate::board_material_score of the position rebuilt from scratch. last_score()/alpha_beta_score() must equal minimax(root, N) and minimax(child after the returned move, N-1) must equal it too. Non-trivial = search with a reused context (prior >= 1), or a tree containing a mate/stalemate inside the horizon; distinct = (root fingerprint, N, prior index).";
 
 struct MateTable {
     white_mated: Vec<i16>,
@@ -227,8 +227,8 @@ fn mate_table() -> &'static MateTable {
     use std::sync::OnceLock;
     static T: OnceLock<MateTable> = OnceLock::new();
     T.get_or_init(|| MateTable {
-        white_mated: (0..=8u8).map(|d| super::pos::mate_score(true, d)).collect(),
-        black_mated: (0..=8u8).map(|d| super::pos::mate_score(false, d)).collect(),
+        white_mated: (0..=10u8).map(|d| super::pos::mate_score(true, d)).collect(),
+        black_mated: (0..=10u8).map(|d| super::pos::mate_score(false, d)).collect(),
     })
 }
 
@@ -296,7 +296,7 @@ impl Prop for C08Searches {
             p.half = 0;
             p.fen()
         };
-        let max_depth = tier.pick(3u8, 3u8);
+        let max_depth = tier.pick(4u8, 4u8); // 4 only for <= 4 men, 3 for <= 7 men (see test)
         (
             prop_oneof![
                 5 => gen::endgame(5).prop_map(move |r| zero(gen::build(&r))),
@@ -338,7 +338,11 @@ impl Prop for C08Searches {
         let searches = c.replies.len() + 1;
         for i in 0..searches {
             let men = pos.men();
-            let depth = if men > 7 && c.depth > 2 { 2 } else { c.depth };
+            let depth = match men {
+                0..=4 => c.depth,
+                5..=7 => c.depth.min(3),
+                _ => c.depth.min(2),
+            };
             if i == 0 {
                 if c.via_game {
                     game = Some(Game::from_board(to_board(&pos), depth));
@@ -355,7 +359,7 @@ impl Prop for C08Searches {
                 (_, Some((_, _, ctx))) => ctx.search_depth(),
                 _ => depth,
             };
-            if men > 7 && depth > 2 {
+            if (men > 7 && depth > 2) || (men > 4 && depth > 3) {
                 break;
             }
             let mut info = MinimaxInfo {
